@@ -432,3 +432,200 @@ func monWindow(w *World) {
 	blackBox("c2s", w.c2s, w.s2c, w.C)
 	blackBox("s2c", w.s2c, w.c2s, w.S)
 }
+
+// proposedN is the window the (real or raw) client proposed.
+func proposedN(w *World) uint8 {
+	if w.sc.RawClient != nil {
+		return w.sc.RawN
+	}
+	return w.sc.N
+}
+
+// monHandshake is oracle (a) of C10: a server in the data phase uses exactly
+// the window the client proposed, and that window is representable.
+func monHandshake(w *World) {
+	if w.S.Conn == nil {
+		return
+	}
+	s := w.S.Conn.VerifSnapshot()
+	if !s.Started {
+		return
+	}
+	w.reached["server-data-phase"] = true
+	want := proposedN(w)
+	if s.N < 1 || s.N > 254 {
+		w.fail(fmt.Sprintf("handshake/unrepresentable-window/n=%d", s.N),
+			"server entered the data phase with window n=%d (s=%d): the protocol needs 1 <= n <= 254", s.N, s.S)
+		return
+	}
+	if s.N != want {
+		w.fail("handshake/window-mismatch", "server is in the data phase with n=%d, the client proposed %d", s.N, want)
+	}
+	if w.C.Conn != nil {
+		c := w.C.Conn.VerifSnapshot()
+		if c.Started && c.N != want {
+			w.fail("handshake/client-window", "client is in the data phase with n=%d, it proposed %d", c.N, want)
+		}
+	}
+}
+
+func sideState(e *Endpoint) string {
+	switch {
+	case !e.CtorDone:
+		return "handshaking"
+	case e.CtorErr != nil:
+		return "failed"
+	case e.closedAt >= 0:
+		return "closed"
+	}
+	return "open"
+}
+
+// finalHandshake is oracles (b) and (c) of C10, judged on the state in which
+// the run proper ended (before the harness shut both ends down).
+func finalHandshake(w *World, x *vrt.Exec) {
+	if len(w.findings) > 0 {
+		return
+	}
+	cs, ss := w.endState[0], w.endState[1]
+	w.reached["end:"+cs+"/"+ss] = true
+	clean := w.faultsUsed == 0 && len(w.sc.StaleC2S) == 0 && len(w.sc.StaleS2C) == 0
+	settled := w.endAt >= w.lastFaultAt+30*time.Second
+	if cs == "open" && ss == "open" {
+		finalAllDelivered(w, x)
+		return
+	}
+	if clean && w.canonical {
+		w.fail("handshake/clean-run-failed/"+cs+"/"+ss,
+			"no fault, no stale packet, canonical schedule, yet the run ended with client %s and server %s", cs, ss)
+		return
+	}
+	if !settled {
+		return
+	}
+	// One side healthy in the data phase while the other is still in its
+	// handshake and has reported nothing: a silent half-open connection.
+	// (A side whose constructor returned an error or whose connection
+	// closed has failed visibly, which the property allows.)
+	if (cs == "open" && ss == "handshaking") || (ss == "open" && cs == "handshaking") {
+		cause := "no-stale-syn"
+		for _, b := range w.sc.StaleS2C {
+			if len(b) > 0 && b[0] == gbn.SYN {
+				// a stale SYN towards the client is taken for the
+				// server's echo (the echo carries no nonce)
+				cause = "stale-syn-to-client"
+			}
+		}
+		w.fail("handshake/half-open/"+cs+"/"+ss+"/"+cause,
+			"%v after the last fault the client is %s and the server is %s: one side is in the data phase, the other is still waiting in its handshake, and no call on either side has reported an error",
+			w.endAt-w.lastFaultAt, cs, ss)
+		return
+	}
+	w.reached["visible-failure"] = true
+}
+
+// monQuiet is oracle (c) of C06: once everything has been delivered and
+// acknowledged nothing but keepalive pings is transmitted any more.
+func monQuiet(w *World) {
+	if w.C.Conn == nil || w.S.Conn == nil {
+		return
+	}
+	quietAt, isQuiet := w.extra["quietAt"].(time.Duration)
+	if !isQuiet {
+		if !w.appsFinished() {
+			return
+		}
+		if len(received(w.S)) != len(accepted(w.C)) || len(received(w.C)) != len(accepted(w.S)) {
+			return
+		}
+		if w.C.Conn.VerifSnapshot().Size != 0 || w.S.Conn.VerifSnapshot().Size != 0 {
+			return
+		}
+		if w.c2s.head() != nil || w.s2c.head() != nil {
+			return
+		}
+		w.extra["quietAt"] = w.s.Now()
+		w.extra["quietOrder"] = w.order
+		w.reached["quiet"] = true
+		return
+	}
+	qo, _ := w.extra["quietOrder"].(int)
+	for _, l := range []*Link{w.c2s, w.s2c} {
+		l.mu.Lock()
+		for _, r := range l.wire {
+			if r.Order > qo && strings.HasPrefix(pktName(r.Data), "DATA") {
+				l.mu.Unlock()
+				w.fail("progress/retransmit-after-all-acked/"+l.name,
+					"%s: %s transmitted at %v although every message had been delivered and both send queues were empty since %v",
+					l.name, pktName(r.Data), r.At, quietAt)
+				return
+			}
+		}
+		l.mu.Unlock()
+	}
+}
+
+// finalNoHang: when an endpoint shut down by itself (allowed with keepalive
+// on), no application call on either side may be left hanging.
+func finalNoHang(w *World, x *vrt.Exec) {
+	if len(w.findings) > 0 || closedBeforeDrain(w, x) == "" {
+		return
+	}
+	drainAt := x.Elapsed - w.sc.Cfg.DrainTime
+	if w.sc.PingC == 0 || w.sc.PingS == 0 {
+		return
+	}
+	for _, e := range []*Endpoint{w.C, w.S} {
+		for _, c := range e.Calls {
+			if (c.Kind == "send" || c.Kind == "recv") && (!c.Returned || c.End > drainAt) {
+				w.fail("progress/hang-after-close/"+e.Name+"/"+c.Kind,
+					"a connection end shut down (%s) but %s's %s started at %v was still blocked at %v (keepalive on both sides)",
+					closedBeforeDrain(w, x), e.Name, c.Kind, c.Start, drainAt)
+			}
+		}
+	}
+}
+
+// finalKeepaliveDead is the dead-peer half of C13.
+func finalKeepaliveDead(w *World, x *vrt.Exec) {
+	if !w.blackholed {
+		return
+	}
+	w.reached["blackholed"] = true
+	const slack = 12 * time.Second // 6 boosted resend timeouts and then some
+	for i, side := range []struct {
+		e          *Endpoint
+		ping, pong time.Duration
+	}{{w.C, w.sc.PingC, w.sc.PongC}, {w.S, w.sc.PingS, w.sc.PongS}} {
+		e := side.e
+		if side.ping == 0 || e.Conn == nil {
+			continue
+		}
+		limit := w.blackholeAt + side.ping + side.pong + slack
+		snap := w.endSnap[i] // (taken inside the bubble, before the drain)
+		class := "window-not-full"
+		if snap.Size >= snap.N {
+			class = "window-full"
+		}
+		if e.closedAt < 0 {
+			w.fail("keepalive/dead-peer-undetected/"+e.Name+"/"+class,
+				"transport silent since %v; %s (ping %v, pong %v, %s, %d packets queued) had still not closed the connection %v later",
+				w.blackholeAt, e.Name, side.ping, side.pong, class, snap.Size, w.endAt-w.blackholeAt)
+			continue
+		}
+		if e.closedAt > limit {
+			w.fail("keepalive/dead-peer-late/"+e.Name+"/"+class,
+				"transport silent since %v; %s closed only at %v (limit %v = ping %v + pong %v + %v)",
+				w.blackholeAt, e.Name, e.closedAt, limit, side.ping, side.pong, slack)
+			continue
+		}
+		w.reached["detected:"+e.Name+":"+class] = true
+		// its calls fail too
+		for _, c := range e.Calls {
+			if (c.Kind == "send" || c.Kind == "recv") && !c.Returned {
+				w.fail("keepalive/call-hangs-after-detection/"+e.Name+"/"+c.Kind,
+					"%s detected the dead peer at %v but its %s started at %v never returned", e.Name, e.closedAt, c.Kind, c.Start)
+			}
+		}
+	}
+}
